@@ -564,6 +564,10 @@ pub fn harvest(spec: &PropSpec, seed: u64, want: usize, need_integrity: bool) ->
     out
 }
 
+pub fn region_name(p: &wire::Parsed, byte: usize) -> &'static str {
+    region_of(p, byte)
+}
+
 fn region_of(p: &wire::Parsed, byte: usize) -> &'static str {
     if byte < 2 {
         return "type";
@@ -842,7 +846,16 @@ fn run_sweep(spec: &PropSpec, args: &CheckArgs, integrity: bool) -> ExtraResult 
 }
 
 pub fn extra_c04(spec: &PropSpec, args: &CheckArgs) -> ExtraResult {
-    run_sweep(spec, args, true)
+    let mut a = run_sweep(spec, args, true);
+    let b = extra_c04_client(spec, args);
+    a.evaluations += b.evaluations;
+    a.distinct.extend(b.distinct);
+    for (k, c) in b.counters {
+        *a.counters.entry(k).or_insert(0) += c;
+    }
+    a.violations.extend(b.violations);
+    a.samples.push("client-side sweep: every single-bit fault in the protected prefix and the MAC of an authenticated, delivered response re-applied in flight by exact re-execution of the plan; the waiting client must never deliver it".to_string());
+    a
 }
 
 pub fn extra_c10(spec: &PropSpec, args: &CheckArgs) -> ExtraResult {
@@ -1221,4 +1234,145 @@ pub fn extra_c03(spec: &PropSpec, args: &CheckArgs) -> ExtraResult {
     let mut res = merged.into_inner().unwrap();
     res.samples.push("systematic sweep: for each sampled valid in-flight response, header / attribute / nested length fields set to every value 0..=original+8 and a multi-byte or quoting sequence injected at every offset of every string attribute; each variant decoded in 16 configurations and delivered to the client in the exact state it had when the original arrived".to_string());
     res
+}
+
+// ---------------------------------------------------------------------------------------------
+// C04, client side: every single-bit fault in the protected prefix and in the MAC of an authenticated
+// response is applied while the message is in flight to a client that is waiting for exactly that
+// response (exact re-execution of the plan with that one delivery tampered): it must never be delivered.
+// ---------------------------------------------------------------------------------------------
+
+pub fn extra_c04_client(spec: &PropSpec, args: &CheckArgs) -> ExtraResult {
+    let thorough = args.tier == "thorough";
+    let n_runs: u64 = if thorough { 20000 } else { 3000 };
+    let max_msgs: usize = if thorough { 1200 } else { 64 };
+    let mut calm = spec.clone();
+    {
+        let p = &mut calm.profile;
+        p.p_perfect = 0;
+        p.p_swarm_off = 0;
+        p.n_inj = (0, 0);
+        p.p_corrupt = 0;
+        p.p_splice = 0;
+        p.p_drop = 0;
+        p.p_dup = 0;
+        p.p_delay = 0;
+        p.p_delay_huge = 0;
+        p.p_timer_late = 0;
+        p.p_timer_very_late = 0;
+        p.p_timer_early = 0;
+        p.p_srv_silent = 0;
+        p.p_srv_integ = 0;
+        p.p_srv_fp = 0;
+        p.p_srv_hostile = 0;
+        p.p_srv_dup = 0;
+        p.p_srv_think = 0;
+        p.p_srv_code = 150;
+        p.p_srv_lt = 100;
+        p.p_srv_more = 300;
+        p.p_align = 0;
+        p.p_long = 0;
+    }
+    calm.opts = world::RunOpts::default();
+    struct Cand {
+        entries: Vec<(String, String)>,
+        origin: Origin,
+        bytes: Vec<u8>,
+        protected_end: usize,
+        shape: u64,
+        reliable: bool,
+    }
+    world::install_quiet_panic_hook();
+    let mut cands: Vec<Cand> = vec![];
+    let mut shapes: BTreeMap<u64, usize> = BTreeMap::new();
+    let mut run = 0u64;
+    while run < n_runs && cands.len() < max_msgs {
+        let (l, entries) = crate::runner::run_one(&calm, args.seed ^ 0xC04C, run);
+        run += 1;
+        if l.panicked().is_some() || l.cfg.mech == Mech::None {
+            continue;
+        }
+        for st in &l.steps {
+            let Call::Recv { bytes, origin, fault } = &st.call else { continue };
+            if !matches!(origin, Origin::S2c(..)) || !fault.is_empty() || st.phase == Phase::Probe {
+                continue;
+            }
+            let Ok(p) = wire::parse(bytes) else { continue };
+            // only responses that the client accepted as authenticated (delivered)
+            let delivered = st.events.iter().any(|e| matches!(e, Ev::Received(m) if m.id == p.txid && m.class >= 2));
+            if !delivered {
+                continue;
+            }
+            let types = p.types();
+            let Some(i) = types.iter().position(|t| *t == wire::A_MI || *t == wire::A_MI256) else { continue };
+            // the last integrity attribute decides the end of the region that at least one MAC protects
+            let last = types.iter().rposition(|t| *t == wire::A_MI || *t == wire::A_MI256).unwrap_or(i);
+            let a = &p.attrs[last];
+            let shape = hash_of(&(types.clone(), p.class, crate::world::mech_to_str(&l.cfg.mech), l.cfg.fp, l.cfg.is_reliable()));
+            let c = shapes.entry(shape).or_insert(0);
+            if *c >= 2 || cands.len() >= max_msgs {
+                continue;
+            }
+            *c += 1;
+            cands.push(Cand { entries: entries.clone(), origin: origin.clone(), bytes: bytes.clone(), protected_end: a.off + 4 + a.value.len(), shape, reliable: l.cfg.is_reliable() });
+        }
+    }
+    let merged: std::sync::Mutex<ExtraResult> = std::sync::Mutex::new(ExtraResult::default());
+    let nthreads = args.threads.max(1);
+    let calm_ref = &calm;
+    std::thread::scope(|sc| {
+        for ch in cands.chunks((cands.len() + nthreads - 1) / nthreads.max(1)).map(|c| c.iter().collect::<Vec<_>>()) {
+            let merged = &merged;
+            sc.spawn(move || {
+                world::install_quiet_panic_hook();
+                let mut r = ExtraResult::default();
+                for c in ch {
+                    let Origin::S2c(n, cc) = c.origin else { continue };
+                    let Ok(p) = wire::parse(&c.bytes) else { continue };
+                    *r.counters.entry("client_sweep_messages".into()).or_insert(0) += 1;
+                    for bit in 0..c.protected_end * 8 {
+                        let byte = bit / 8;
+                        if byte == 2 || byte == 3 {
+                            continue;
+                        }
+                        let mut e2 = c.entries.clone();
+                        e2.push(("override".to_string(), format!("n={} c={} corrupt=bit pos={}", n, cc, bit)));
+                        let l2 = crate::runner::replay_entries(calm_ref, &e2);
+                        r.evaluations += 1;
+                        *r.counters.entry("client_bit_faults_applied".into()).or_insert(0) += 1;
+                        let st2 = l2.steps.iter().find(|s| matches!(&s.call, Call::Recv { origin: o, .. } if *o == c.origin));
+                        let Some(st2) = st2 else { continue };
+                        let got = st2.events.iter().any(|e| matches!(e, Ev::Received(m) if m.class >= 2 && m.id == p.txid));
+                        let region = region_of(&p, byte);
+                        let outcome = match (&st2.result, st2.events.first()) {
+                            (CallResult::Err(_), _) => 0u8,
+                            (CallResult::Ok, Some(Ev::Failed(..))) => 1,
+                            (CallResult::Ok, Some(Ev::Received(_))) => 2,
+                            _ => 3,
+                        };
+                        r.distinct.insert(hash_of(&(c.shape, region, outcome, c.reliable)));
+                        if got && r.violations.len() < 6 {
+                            r.violations.push((
+                                viol(
+                                    "C04",
+                                    format!("C04/client-delivered-tampered-response(region={})", region),
+                                    st2.idx,
+                                    format!("after flipping bit {} (byte {}, {}) of an authenticated response in flight, the waiting client still delivered it", bit, byte, region),
+                                ),
+                                e2.clone(),
+                            ));
+                        }
+                    }
+                }
+                let mut m = merged.lock().unwrap();
+                m.evaluations += r.evaluations;
+                m.distinct.extend(r.distinct);
+                for (k, cnt) in r.counters {
+                    *m.counters.entry(k).or_insert(0) += cnt;
+                }
+                m.violations.extend(r.violations);
+            });
+        }
+    });
+    merged.into_inner().unwrap()
 }
